@@ -945,6 +945,7 @@ static void do_start(int h)
   char flags[128] = "";
   int argvnull = 0, usewd = 0, rfile = 0, rpath = 0, want_ident = 0, nofile = 0, hlow = 0;
   const char *inchild = NULL;
+  int selffd[3] = { -1, -1, -1 };  // h<stream>fd=N: the caller passes its own descriptor N as the handle (1>&2 style)
   const char *runex = NULL, *argvx = NULL, *envx = NULL, *wdx = NULL, *progx = NULL;
   const char *pathmode = NULL, *handlemode = NULL;
   long inputsz = -1;
@@ -1002,6 +1003,9 @@ static void do_start(int h)
     else if ((v = kv(t, "pathmode"))) pathmode = v;
     else if ((v = kv(t, "handlemode"))) handlemode = v;
     else if ((v = kv(t, "inchild"))) inchild = v;
+    else if ((v = kv(t, "hinfd"))) selffd[0] = atoi(v);
+    else if ((v = kv(t, "houtfd"))) selffd[1] = atoi(v);
+    else if ((v = kv(t, "herrfd"))) selffd[2] = atoi(v);
     else if ((v = kv(t, "hin"))) o.redirect.in.handle = atoi(v) ? -2 : 0;
     else if ((v = kv(t, "hout"))) o.redirect.out.handle = atoi(v) ? -2 : 0;
     else if ((v = kv(t, "herr"))) o.redirect.err.handle = atoi(v) ? -2 : 0;
@@ -1025,6 +1029,11 @@ static void do_start(int h)
     if (pathmode && !strcmp(pathmode, "missing")) snprintf(paths[s], sizeof paths[s], "%s/nodir/redir%d", c->dir, s);
     if (pathmode && !strcmp(pathmode, "dir")) snprintf(paths[s], sizeof paths[s], "%s", c->dir);
     if (rd[s]->type == REPROC_REDIRECT_PATH) rd[s]->path = paths[s];
+    if (selffd[s] >= 0) {
+      rd[s]->type = REPROC_REDIRECT_HANDLE;
+      rd[s]->handle = selffd[s];
+      continue;
+    }
     if (rd[s]->type == REPROC_REDIRECT_HANDLE || rd[s]->handle == -2) {
       if (c->handles[s] < 0)
         c->handles[s] = hlow ? open(paths[s], O_RDWR | O_CREAT, 0644)  // low number, inheritable
